@@ -9,6 +9,7 @@ import (
 	"encoding/hex"
 	"errors"
 	"fmt"
+	"google.golang.org/grpc/metadata"
 	"io"
 	"log/slog"
 	"os"
@@ -38,22 +39,22 @@ func init() {
 // Op is one step of an abstract program. Selectors (H, Key) are resolved modulo what exists
 // at run time, so every sub-list of a program is again a valid program.
 type Op struct {
-	K      string `json:"k"`                // begin set del get getr keys commit rollback gc reopen otherdb burst delburst txburst files
-	H      int    `json:"h,omitempty"`      // actor selector: 0 = autocommit, else the (H-1 mod n)-th open transaction
+	K string `json:"k"`           // begin set del get getr keys commit rollback gc reopen otherdb burst delburst txburst files
+	H int    `json:"h,omitempty"` // actor selector: 0 = autocommit, else the (H-1 mod n)-th open transaction
 	// CancelClose (Via "create", inline binding): the context given to Create is cancelled after the last Write,
 	// before Close - a handle that outlives the request it was created in. The inline binding ignores contexts.
-	CancelClose bool `json:"cancel_close,omitempty"`
-	Last   bool   `json:"last,omitempty"`   // address the most recently begun transaction that is still open
-	Late   bool   `json:"late,omitempty"`   // C13: address an ended transaction instead of an open one
-	Recent bool   `json:"recent,omitempty"` // with Late: the transaction that ended most recently
-	Ghost  bool   `json:"ghost,omitempty"`  // C13: address a transaction id that never existed
-	Key    int    `json:"key,omitempty"`    // key selector (mod len(keys)); -1 = the empty key; -2 = a never-written key
-	Len    int    `json:"len,omitempty"`    // content length of a write
-	Lvl    int    `json:"lvl,omitempty"`    // begin: 0..3 = level, 4 = Begin() without argument (default level)
-	Via    string `json:"via,omitempty"`    // write path: "" = Set, "reader" = SetReader, "create" = Create+Write*+Close
-	Split  []int  `json:"split,omitempty"`  // reader: max bytes per Read; create: sizes of the Write calls (cyclic)
-	N      int    `json:"n,omitempty"`      // burst: number of keys
-	Cctx   bool   `json:"cctx,omitempty"`   // the caller's context is already cancelled when the call is made (inline binding only: it ignores contexts)
+	CancelClose bool   `json:"cancel_close,omitempty"`
+	Last        bool   `json:"last,omitempty"`   // address the most recently begun transaction that is still open
+	Late        bool   `json:"late,omitempty"`   // C13: address an ended transaction instead of an open one
+	Recent      bool   `json:"recent,omitempty"` // with Late: the transaction that ended most recently
+	Ghost       bool   `json:"ghost,omitempty"`  // C13: address a transaction id that never existed
+	Key         int    `json:"key,omitempty"`    // key selector (mod len(keys)); -1 = the empty key; -2 = a never-written key
+	Len         int    `json:"len,omitempty"`    // content length of a write
+	Lvl         int    `json:"lvl,omitempty"`    // begin: 0..3 = level, 4 = Begin() without argument (default level)
+	Via         string `json:"via,omitempty"`    // write path: "" = Set, "reader" = SetReader, "create" = Create+Write*+Close
+	Split       []int  `json:"split,omitempty"`  // reader: max bytes per Read; create: sizes of the Write calls (cyclic)
+	N           int    `json:"n,omitempty"`      // burst: number of keys
+	Cctx        bool   `json:"cctx,omitempty"`   // the caller's context is already cancelled when the call is made (inline binding only: it ignores contexts)
 }
 
 // Case is a generated test case for E1.
@@ -67,9 +68,11 @@ type Case struct {
 	Roots    int      `json:"roots,omitempty"`
 	MaxDir   uint64   `json:"max_dir,omitempty"`
 	External bool     `json:"external,omitempty"`
-	Others   int      `json:"others,omitempty"` // C05: other databases opened in the same process first
-	Variant  int      `json:"variant,omitempty"`
-	Workers  int      `json:"pool_workers,omitempty"` // worker pool size of the database (0 = 2); 1 makes cleanup jobs take the deferred path
+	// CallerMD: every context the caller passes already carries outgoing gRPC metadata of the application
+	CallerMD bool `json:"caller_md,omitempty"`
+	Others   int  `json:"others,omitempty"` // C05: other databases opened in the same process first
+	Variant  int  `json:"variant,omitempty"`
+	Workers  int  `json:"pool_workers,omitempty"` // worker pool size of the database (0 = 2); 1 makes cleanup jobs take the deferred path
 	// RootStyle: how the root directories are spelled in the configuration: 0 canonical, 1 trailing
 	// slash, 2 doubled slash, 3 a "/./" segment (all name the same directories)
 	RootStyle int `json:"root_style,omitempty"`
@@ -139,7 +142,12 @@ func newWorldStruct(c Case, r *ev.Result) *World {
 		}
 		c.Keys, c.KeysHex = keys, nil
 	}
-	return &World{Case: c, R: r, M: model.New(), handles: map[int]*handle{}, byHash: map[[32]byte]string{}, Stats: map[string]int{}, ctx: context.Background()}
+	ctx := context.Background()
+	if c.CallerMD {
+		// an application that sends gRPC metadata of its own with every call (request id, credentials)
+		ctx = metadata.AppendToOutgoingContext(ctx, "x-request-id", "42", "authorization", "bearer t0k3n")
+	}
+	return &World{Case: c, R: r, M: model.New(), handles: map[int]*handle{}, byHash: map[[32]byte]string{}, Stats: map[string]int{}, ctx: ctx}
 }
 
 func b2i(b bool) int {
